@@ -334,7 +334,7 @@ pub fn run(ctx: &Ctx) -> &'static str {
     ctx.explore(
         "housekeeping",
         "timed histories of real housekeeping ticks (spacing 1000..1500 ms), echoes built from the last keepalive on the wire (verbatim, 10-byte, tail-extended, truncated 2..9, future/zero/same-ms timestamps, late, duplicated), inbound, traffic, NAKs, silence and resets on 1..4 real links; keepalive cadence, 38-byte frame layout and telemetry vs pre-tick snapshot, echo sampling rule, smoothed RTT finite and >= 0 after every op; non-trivial = >= 1 accepted echo and >= 1 rejected echo and >= 1 link reset",
-        ctx.tier.pick(5_000, 120_000),
+        ctx.tier.pick(20_000, 250_000),
         || strategy(mo),
         |_| check,
     );
